@@ -1,6 +1,6 @@
 SPECIFICATION GSpec
 CONSTANTS
-  Layouts = {20, 30, 21}
+  Layouts = {20, 30}
   Excs = {"hardware", "other"}
   Depth = 5
   Depth2 = 4
